@@ -1,15 +1,30 @@
-(* Property C15 — Reusing a ParsedJson or Serializer never leaks earlier state
-   Statement-level file; see DESIGN.md §6 C15.  Model-level theorems are under
-   proof in Proofs/ (see obligations.json); this file carries the tie
-   obligations and what is proved so far; the property is decided on every run
-   by the correspondence described in DESIGN.md. *)
-From SJ Require Import Model.Base Model.RefTables Spec.Json Model.Tape Model.Iter Model.Serialize Model.FloatFmt Model.Marshal Tie.GoTablesTie Tie.SerializeTie.
-Open Scope N_scope.
-From SJ Require Import Model.Ring Proofs.RingProofs Tie.PipelineTie.
+(* Property C15 — reusing a ParsedJson or Serializer never leaks earlier state.
+   Model/Reuse.v separates the fields every call resets from the one piece of
+   state that survives a call (the index channel, and the ring buffers' stale
+   contents). *)
 From Coq Require Import List.
-(* the only state a parse does not reset is the index channel; it is empty
-   whenever both stages are done, for every schedule, on success and failure *)
+From SJ Require Import Model.Base Model.RefTables Model.Ring Proofs.RingProofs Model.Reuse Proofs.ReuseProofs Tie.PipelineTie Tie.GoTablesTie.
+
+(* the channel is empty whenever both stages are done: every schedule, success
+   and failure *)
 Theorem C15_channel_empty_after_every_call : forall S CAP n evs s,
-  run S CAP (init n) evs = Some s -> final s = true -> queue s = [] /\ filling s = None /\ held s = None.
+  Ring.run S CAP (Ring.init n) evs = Some s -> Ring.final s = true -> Ring.queue s = [] /\ Ring.filling s = None /\ Ring.held s = None.
 Proof. intros S CAP n evs s H F. destruct (ring_final_empty S CAP n evs s H F) as (A & B & _ & D & _). exact (conj A (conj B D)). Qed.
+
+(* a call on a used object whose channel is empty gives the result and the
+   fields of the same call on a fresh object *)
+Theorem C15_reuse_independent : forall (result : Type) core s c,
+  reuse_inv_b s = true ->
+  fst (parse result core s c) = fst (parse result core fresh c) /\
+  i_fields (snd (parse result core s c)) = i_fields (snd (parse result core fresh c)).
+Proof. exact reuse_independent. Qed.
+
+(* any history of calls: every result equals the fresh result and the
+   invariant is re-established, given that a call ends with both stages done
+   (the premise is the ring theorem's conclusion) *)
+Definition C15_reuse_many := reuse_many.
+(* stale contents of the ring buffers are never read *)
+Definition C15_stale_ring_never_read := stale_ring_never_read.
+
 Print Assumptions C15_channel_empty_after_every_call.
+Print Assumptions C15_reuse_independent.
